@@ -724,8 +724,8 @@ mod discover {
 		let tmp = tempfile::tempdir_in(scratch).unwrap();
 		let origin = tmp.path().canonicalize().unwrap().join("proj");
 		// create the directories in an order that depends on the case, to vary readdir order
-		let mut dirs = vec!["test/sub", "tests/sub", "a", ".git/info"];
-		dirs.rotate_left(variant % 4);
+		let mut dirs = vec!["test/sub", "tests/sub", "a", ".git/info", "_darcs/prefs"];
+		dirs.rotate_left(variant % 5);
 		if variant % 2 == 1 {
 			dirs.reverse();
 		}
@@ -741,28 +741,55 @@ mod discover {
 			let content = if lines.is_empty() { String::new() } else { lines.join("\n") + "\n" };
 			std::fs::write(dir.join(f["kind"].as_str().unwrap()), content).unwrap();
 		}
-		if case["exclude"]["on"].as_bool().unwrap() {
-			let lines: Vec<&str> = case["exclude"]["lines"].as_array().unwrap().iter().map(|l| l.as_str().unwrap()).collect();
+		// the origin-level files
+		let outside = origin.parent().unwrap().to_path_buf();
+		let mut explicit = Vec::new();
+		for f in case["exclude"].as_array().unwrap() {
+			let lines: Vec<&str> = f["lines"].as_array().unwrap().iter().map(|l| l.as_str().unwrap()).collect();
 			let content = if lines.is_empty() { String::new() } else { lines.join("\n") + "\n" };
-			std::fs::write(origin.join(".git/info/exclude"), content).unwrap();
+			match f["kind"].as_str().unwrap() {
+				"explicit" => {
+					let p = outside.join("explicit.ignore");
+					std::fs::write(&p, content).unwrap();
+					explicit.push(p);
+				}
+				"excludesfile" => {
+					let p = outside.join("global_excludes");
+					std::fs::write(&p, content).unwrap();
+					std::fs::write(origin.join(".git/config"), format!("[core]\n\texcludesFile = {}\n", p.display())).unwrap();
+				}
+				rel_name => {
+					let p = origin.join(rel_name);
+					std::fs::create_dir_all(p.parent().unwrap()).unwrap();
+					std::fs::write(&p, content).unwrap();
+				}
+			}
 		}
 		let watches: Vec<PathBuf> = case["watches"].as_array().unwrap().iter().map(|w| rel(&origin, w)).collect();
-		let args = match IgnoreFilesFromOriginArgs::new(&origin, watches, Vec::new()) {
+		let args = match IgnoreFilesFromOriginArgs::new(&origin, watches, explicit) {
 			Ok(a) => a,
 			Err(e) => return json!({"error": e.to_string()}),
 		};
 		let (files, errors) = from_origin(args).await;
+		let special = [".git/info/exclude", ".bzrignore", "_darcs/prefs/boring", ".fossil-settings/ignore-glob"];
 		let mut found = Vec::new();
 		for f in files {
 			let dir = f.path.parent().unwrap().to_path_buf();
 			let name = f.path.strip_prefix(&origin).map(|p| p.display().to_string()).unwrap_or_else(|_| f.path.display().to_string());
-			let kind = if name == ".git/info/exclude" { name.clone() } else { f.path.file_name().unwrap().to_string_lossy().to_string() };
-			let loc: Vec<String> = if kind == ".git/info/exclude" {
-				Vec::new()
+			let (kind, loc, want_in): (String, Vec<String>, Option<&Path>) = if special.contains(&name.as_str()) {
+				(name.clone(), Vec::new(), Some(origin.as_path()))
+			} else if f.path == outside.join("explicit.ignore") {
+				("explicit".into(), Vec::new(), Some(origin.as_path()))
+			} else if f.path == outside.join("global_excludes") {
+				("excludesfile".into(), Vec::new(), None)
 			} else {
-				dir.strip_prefix(&origin).map(|p| p.components().map(|c| c.as_os_str().to_string_lossy().to_string()).collect()).unwrap_or_default()
+				(
+					f.path.file_name().unwrap().to_string_lossy().to_string(),
+					dir.strip_prefix(&origin).map(|p| p.components().map(|c| c.as_os_str().to_string_lossy().to_string()).collect()).unwrap_or_default(),
+					Some(dir.as_path()),
+				)
 			};
-			let applies_in_ok = f.applies_in.as_deref() == Some(if kind == ".git/info/exclude" { origin.as_path() } else { dir.as_path() });
+			let applies_in_ok = f.applies_in.as_deref() == want_in;
 			found.push(json!({
 				"loc": loc, "kind": kind,
 				"applies_to": f.applies_to.map_or("-".to_string(), |t| format!("{t:?}")),
